@@ -8,6 +8,10 @@ THEOREMS = ['C13_roundtrip', 'C13_projection', 'C13_cfuse_eq_acm', 'C13_afuse_eq
 RULE = ("bconv (round trip) and bvs (cfuse/afuse/wfuse vs FuseOp on converted operands, both computed by the implementation) on pairs "
         "of well-formed binomial opinions: 1/8 grid incl. vacuous/dogmatic/zero-one base rates (exhaustive in thorough), random dyadic "
         "up to 1/64, nearly vacuous (1-u in 1e-3..1e-15) and nearly dogmatic (u in 1e-3..1e-12) operands; u in (0,eps] excluded; "
+        "bconv_all: EVERY conversion path (Opinion1d::from / .into(), BOpinion::from / .into() by value and BY REFERENCE, the "
+        "&BSimplex -> &Simplex1d view, a second trip) with the projections of both representations, on the grid, dyadic, arbitrary "
+        "non-dyadic floats and nearly dogmatic / nearly vacuous opinions (u resp. 1-u in 1e-3..1e-15), base rates other than 1/2: "
+        "lossless bit for bit, by-reference = by-value; bvs with variant `alias` (the same object fused with itself on both sides); "
         "f32+f64. non-trivial = value or legitimate error")
 EXHAUSTIVE = {}
 LEVEL_TEXT = ("Theorems over the exact model: conversion round trip is the identity and preserves the projection; on operands whose "
@@ -67,6 +71,26 @@ def cases(rng, tier):
                 x = near(rng, fmt, rng.choice(["nvac", "ndog"])) if rng.random() < 0.8 else [float(v) for v in rng.choice(grid)]
                 y = near(rng, fmt, rng.choice(["nvac", "ndog"])) if rng.random() < 0.8 else [float(v) for v in rng.choice(grid)]
             out.append(G.line("bvs", fmt, "B.o", [rng.randint(0, 2)], list(x) + list(y) + [Fr(1, 2)]))
+
+        def one():
+            z = rng.random()
+            if z < 0.25:
+                return list(rng.choice(grid))
+            if z < 0.45:
+                return G.rand_bop(rng, rng.choice([16, 32, 64]))
+            if z < 0.7:
+                return G.float_bop(rng, fmt)
+            w = near(rng, fmt, rng.choice(["nvac", "ndog"]))
+            if rng.random() < 0.7:
+                w[3] = G.round_fmt(fmt, rng.choice([rng.random(), 0.1, 0.9, 1.0 / 3.0, 1e-3, 1.0 - 1e-3]))
+            return w
+        # every conversion path, by value and by reference
+        for _ in range(N // 3):
+            out.append(G.line("bconv_all", fmt, "B.o", [], one()))
+        # the same object fused with itself, binomial operator vs multinomial operator
+        for _ in range(N // 6):
+            x = one()
+            out.append(G.line("bvs", fmt, "B.o.alias", [rng.randint(0, 2)], list(x) + list(x) + [Fr(1, 2)]))
     return out
 
 
